@@ -162,6 +162,20 @@ func RWRUnlock(m *sync.RWMutex) {
 	}
 }
 
+// OnceDo replaces o.Do(f): the callers are serialised through the cooperative lock machinery (keyed by the Once), so a
+// caller that finds another one inside f parks where the simulator can see it instead of on the Once's internal mutex.
+func OnceDo(o *sync.Once, f func(), site string) {
+	if h := LockHook; h != nil {
+		h(o, site)
+		defer func() {
+			if u := UnlockHook; u != nil {
+				u(o)
+			}
+		}()
+	}
+	o.Do(f)
+}
+
 // ---- map iteration ---------------------------------------------------------------------------------------------------
 
 // KeysHook, when set, receives the canonically ordered key count and the site and may
